@@ -190,7 +190,8 @@ class NativeCtx:
 
     # -- stubs are patched into the modules for the duration of the run
     def stubs(self, pairs):
-        self.unpatch()
+        if self._patches:
+            raise RuntimeError("stubs() must be called once per run (module attributes are already patched)")
         if isinstance(pairs, dict):
             pairs = list(pairs.items())
         for orig, repl in pairs:
@@ -273,10 +274,17 @@ def run_native(h: Harness, params, inputs, step_limit=None):
     old = sys.gettrace()
     prev_engine = Engine.current
     Engine.current = None
+    import tracemalloc
+
+    measure = h.budget_violation
     try:
+        if measure:
+            tracemalloc.start()
         sys.settrace(_tracer_factory(ctx))
         try:
             v = h.fn(ctx, **params)
+            if measure and tracemalloc.get_traced_memory()[1] > V.ALLOC_CAP:
+                return NativeOutcome("budget", f"peak allocation {tracemalloc.get_traced_memory()[1]} bytes", None, ctx.reached, ctx.steps)
             return NativeOutcome("return", v, None, ctx.reached, ctx.steps)
         except NativeAssumeFailed as e:
             return NativeOutcome("assume", e, None, ctx.reached, ctx.steps)
@@ -286,9 +294,15 @@ def run_native(h: Harness, params, inputs, step_limit=None):
             return NativeOutcome("budget", None, None, ctx.reached, ctx.steps)
         except RecursionError as e:
             return NativeOutcome("raise", e, None, ctx.reached, ctx.steps)
+        except MemoryError:
+            return NativeOutcome("budget", "MemoryError", None, ctx.reached, ctx.steps)
         except Exception as e:
+            if measure and tracemalloc.get_traced_memory()[1] > V.ALLOC_CAP:
+                return NativeOutcome("budget", f"peak allocation {tracemalloc.get_traced_memory()[1]} bytes", None, ctx.reached, ctx.steps)
             return NativeOutcome("raise", e, None, ctx.reached, ctx.steps)
     finally:
+        if measure:
+            tracemalloc.stop()
         sys.settrace(old)
         ctx.unpatch()
         Engine.current = prev_engine
